@@ -532,7 +532,7 @@ func MergeLists(opts []SegSpec, k int, yield func(idx int64, segs []SegSpec) boo
 
 // ---- STORED-S / DV-S ----
 
-const NStoredCfg = 10
+const NStoredCfg = 13
 
 func storedDoc(cfg int, i int) Doc {
 	big := make([]byte, 300)
@@ -566,11 +566,17 @@ func storedDoc(cfg int, i int) Doc {
 			d = append(d, stored(fld(fmt.Sprintf("s%02d", k%17)), fmt.Sprintf("value-%d-of-doc-%d", k, i)))
 		}
 		return d
+	case 10: // a non-empty value followed by EMPTY values at the very end of the record
+		return Doc{idf, stored(fld("a", TermKind("x", KF1, "")), "xyz"), stored(fld("z"), "")}
+	case 11: // a repeated field whose trailing values are empty
+		return Doc{IDField("d", i), stored(fld("a", TermKind("x", KF1, "")), "one"), stored(fld("a"), ""), stored(fld("a"), "")}
+	case 12: // an empty value followed by a non-empty one
+		return Doc{idf, stored(fld("a", TermKind("x", KF1, "")), ""), stored(fld("z"), "after-empty")}
 	}
 	panic("stored cfg")
 }
 
-// StoredS enumerates STORED-S: 0..maxDocs docs x 10 stored configurations.
+// StoredS enumerates STORED-S: 0..maxDocs docs x 13 stored configurations.
 func StoredS(maxDocs int, yield func(idx int64, batch []Doc, cfgs []int) bool) {
 	var idx int64
 	for n := 0; n <= maxDocs; n++ {
